@@ -274,3 +274,113 @@ Theorem C01_source_constants :
   Gen.Consts.rlp_maxInt32 = Z.of_N Rlp.Model.maxInt32.
 Proof. vm_compute. repeat split; reflexivity. Qed.
 Print Assumptions C01_source_constants.
+
+(* ---------- round 5: the remaining guards ---------- *)
+From FFS Require Import Tx.SignProofs5.
+
+(* 10. Theorem 1 with ONE size guard per outcome.  Theorem 1 has two: "payload shorter than 2^64"
+       up front and "output shorter than 2^64" for the signed bytes.  The exact length of an RLP
+       list encoding ([C01_encode_length_exact]) shows that the returned bytes are at least as long
+       as the payload, so when the signer answers a 27/28 signature the single guard [short out]
+       gives both conclusions: what the signer was asked to sign ([pd], the model's payload) is the
+       prescribed preimage, and the bytes are the prescribed signed transaction.  When the signer
+       fails there are no returned bytes: its error is the result whatever the sizes, and [pd] is
+       the preimage when [pd] itself is shorter than 2^64 (first conjunct; the only guard there). *)
+Theorem C01_wire_format_one_guard :
+  forall (m : mode) (t : tx) (f : signer) (chain : Z),
+  (0 <= chain)%Z ->
+  let fm := format_of m t in
+  let c := Z.to_N chain in
+  let pre := spec_preimage fm (norm t) c in
+  let pd := sp_data (payload_of m t chain) in
+  (short pd -> pd = pre) /\
+  match f pd with
+  | Ok (v, r, s) =>
+      exists out, sign_mode m t (Some f) chain = Ok out /\
+        (v_legacy v -> short out ->
+         pd = pre /\ out = spec_signed fm (norm t) c (y_of v) (Z.abs_N r) (Z.abs_N s))
+  | Err e => sign_mode m t (Some f) chain = Err e
+  | Panic => sign_mode m t (Some f) chain = Panic
+  end.
+Proof. exact sign_wire_format_one_guard. Qed.
+Print Assumptions C01_wire_format_one_guard.
+
+(* the length lemmas behind it: an RLP list encoding is exactly header + content, with the header
+   length a function of the content length; and the returned bytes are at least as long as the
+   signed payload *)
+Theorem C01_encode_length_exact :
+  (forall l : list item,
+     length (encode (Lst l)) = (hdr_len (length (flat_map encode l)) + length (flat_map encode l))%nat) /\
+  (forall (m : mode) (t : tx) (chain v r s : Z) (out : bytes),
+     v_legacy v -> (0 <= chain)%Z -> finalize m t chain (v, r, s) = Ok out -> short out ->
+     (length (sp_data (payload_of m t chain)) <= length out)%nat).
+Proof. exact (conj enc_list_len_exact out_ge_payload). Qed.
+Print Assumptions C01_encode_length_exact.
+
+(* 11. Theorem 4 with guards on the INPUTS only: the transaction in the property's range
+       ([in_range]: 20-byte destination, integer fields below 2^256 in magnitude, data of at most
+       2^31-1024 bytes), 0 <= chain < 2^61, and a signer whose answer to the prescribed preimage is a
+       27/28 signature with 0 <= R, S < 2^256.  Nothing is assumed about the output: signing
+       succeeds, the bytes are the prescribed wire format, and recovery hands RecoverDirect the very
+       (V, R, S) over H(preimage) and returns the same field values and the preimage. *)
+Theorem C01_recover_sign_inputs :
+  forall (H : bytes -> bytes) (RecoverDirect : sigdata -> bytes -> Z -> res bytes)
+         (m : mode) (t : tx) (f : signer) (chain : Z) (v r s : Z),
+  in_range t -> chain_ok chain ->
+  let fm := format_of m t in
+  let c := Z.to_N chain in
+  let pre := spec_preimage fm (norm t) c in
+  f pre = Ok (v, r, s) -> v_legacy v -> (0 <= r < two256)%Z -> (0 <= s < two256)%Z ->
+  exists out,
+    sign_mode m t (Some f) chain = Ok out /\
+    out = spec_signed fm (norm t) c (y_of v) (Z.to_N r) (Z.to_N s) /\
+    RecoverRawTransaction H RecoverDirect out chain =
+      do a <- RecoverDirect (v_seen fm v, r, s) (H pre) chain;
+      Ok (a, recovered_tx fm (norm t), pre).
+Proof. exact recover_sign_inputs. Qed.
+Print Assumptions C01_recover_sign_inputs.
+
+(* 12. The chain ids of the property's quantifier, 0 <= chain <= 2^53, are below 2^61: theorem 11 for
+       exactly the quantifier of the property (all four modes, fields below 2^256, chain id in
+       [0, 2^53]) - no guard beyond it except the bound on the data length and on the R, S an
+       arbitrary signer may answer (a secp256k1 signer answers below n < 2^256: theorem 8). *)
+Theorem C01_recover_sign_in_quantifier :
+  forall (H : bytes -> bytes) (RecoverDirect : sigdata -> bytes -> Z -> res bytes)
+         (m : mode) (t : tx) (f : signer) (chain : Z) (v r s : Z),
+  in_range t -> (0 <= chain <= 2 ^ 53)%Z ->
+  let fm := format_of m t in
+  let c := Z.to_N chain in
+  let pre := spec_preimage fm (norm t) c in
+  f pre = Ok (v, r, s) -> v_legacy v -> (0 <= r < two256)%Z -> (0 <= s < two256)%Z ->
+  exists out,
+    sign_mode m t (Some f) chain = Ok out /\
+    out = spec_signed fm (norm t) c (y_of v) (Z.to_N r) (Z.to_N s) /\
+    RecoverRawTransaction H RecoverDirect out chain =
+      do a <- RecoverDirect (v_seen fm v, r, s) (H pre) chain;
+      Ok (a, recovered_tx fm (norm t), pre).
+Proof. exact recover_sign_in_quantifier. Qed.
+Print Assumptions C01_recover_sign_in_quantifier.
+
+(* non-vacuity of theorems 10-12: the EIP-155 transfer of C01_nonvacuous on chain 2^53 with the
+   constant signer (28, 5, 6) meets every hypothesis of theorem 12 (hence of 11), the returned bytes
+   are short (the single guard of theorem 10), as long as the payload (here exactly: the bound of
+   C01_encode_length_exact is tight), and recovery returns what
+   the RecoverDirect parameter answers *)
+Example C01_nonvacuous_inputs_only :
+  let t := mkTx (Some 9%Z) (Some 20000000000%Z) None None (Some 21000%Z) (Some (repeat x35 20)) (Some 1000000000000000000%Z) None in
+  let f : signer := fun _ => Ok (28%Z, 5%Z, 6%Z) in
+  let RD : sigdata -> bytes -> Z -> res bytes := fun _ _ _ => Ok (repeat x11 20) in
+  let chain := (2 ^ 53)%Z in
+  in_range t /\ (0 <= chain <= 2 ^ 53)%Z /\ chain_ok chain /\ v_legacy 28 /\ (0 <= 5 < two256)%Z /\ (0 <= 6 < two256)%Z /\
+  exists out, sign_mode Auto t (Some f) chain = Ok out /\ short out /\
+    (length (sp_data (payload_of Auto t chain)) <= length out)%nat /\
+    RecoverRawTransaction (fun b => b) RD out chain
+    = Ok (repeat x11 20, recovered_tx Eip155 (norm t), spec_preimage Eip155 (norm t) (2 ^ 53)).
+Proof.
+  cbv zeta.
+  split; [unfold in_range, below256, two256, data_max; cbn; repeat split; lia|].
+  split; [lia|]. split; [unfold chain_ok; lia|]. split; [right; reflexivity|].
+  split; [unfold two256; lia|]. split; [unfold two256; lia|].
+  eexists. split; [vm_compute; reflexivity|]. split; [unfold short; vm_compute; reflexivity|].
+  split; [apply Nat.leb_le; vm_compute; reflexivity|]. vm_compute. reflexivity.
+Qed.
